@@ -285,6 +285,20 @@ class C17(Prop):
                 t = ["s", self._text(rng, ual, (0, 1, 2, 3, 4, 6))] if rng.random() < 0.7 else self._tree(rng, ual, 2)
                 out.append({"stream": "unescape", "tag": "rnd:unescape", "input": {"t": t}})
 
+        # delimiters / equal tags of several characters (oracle only: the model's delimiter is one character): values that
+        # contain the delimiter, its single characters, the equal tag
+        for _ in range(120 if quick else 3000):
+            d, eq = rng.choice(["||", "; ", "<>", "|"]), rng.choice(["=", ":=", ": ", "="])
+            al = ["a", "b", "x", " ", d, d[0], d[-1], eq, eq[0], "{", "\\", "5"]
+            m, keys = [], set()
+            for _ in range(rng.choice([1, 2, 3, 4])):
+                key = self._text(rng, ["a", "b", "K", "x"], (1, 1, 2, 3))
+                if key in keys:
+                    continue
+                keys.add(key)
+                m.append([key, ["s", self._text(rng, al, (0, 1, 2, 3, 5))]])
+            out.append({"stream": "ser_rt_m", "tag": "rnd:ser_rt_m", "input": {"d": d, "eq": eq, "ge": True, "gn": True, "ck": 0, "cv": 0, "t": ["d", 0, m]}})
+
     # parse_ini / load_ini ---------------------------------------------------------------
     NUMS = ["1", "12", "-3", "+4", "007", "1.5", "12345678901234567", "9999999999999999", "-9007199254740993", "-0.25", ".5", "2.", "1.25", "0.0", "-0.0", "100.125", ".", "-", "+", "- 5", "+ 5",
             "1.2.3", "1e3", "0.0001", "12345678.5", "1.1234567", "-.5", "+1.0", "00.50", "0",
@@ -398,7 +412,7 @@ class C17(Prop):
                                                       default_key=i["dk"], default_value=i["dv"]))}
         if st == "serialize":
             return {"ok": L.canon(n0.serialize_dict(L.uncanon(i["t"]), i["d"], i["eq"], i["ge"], i["gn"], i["ck"], i["cv"]))}
-        if st == "ser_rt":
+        if st in ("ser_rt", "ser_rt_m"):
             ser = n0.serialize_dict(L.uncanon(i["t"]), i["d"], i["eq"], i["ge"], i["gn"], i["ck"], i["cv"])
             return {"ok": L.canon([ser, n0.unescape(n0.deserialize_dict(ser, i["d"], equal_tag=i["eq"]))])}
         if st == "unescape":
@@ -525,6 +539,14 @@ class C17(Prop):
                 text, i["n"], i["pe"], got, want)
         if st in ("serialize", "ser_rt"):
             return self._oracle_ser(case, obs)
+        if st == "ser_rt_m":
+            if "raise" in obs:
+                return "unescape(deserialize_dict(serialize_dict(m))) raised %s with delimiter %r" % (obs.get("exc"), i["d"])
+            m = [(k, v[1]) for k, v in i["t"][2]]
+            ser, got = L.uncanon(obs["ok"])
+            if got != dict(m) or list(got) != [k for k, _ in m]:
+                return "round trip with delimiter %r, equal tag %r gave %r for %r (text %r)" % (i["d"], i["eq"], got, dict(m), ser)
+            return None
         if st == "unescape":
             return None
         if st in ("parse_ini", "ini_file", "ini_text"):
